@@ -26,12 +26,24 @@
   class — the mixin criterion, the exact extra bases from @mixin, the order of the fragments module — hold
   unconditionally, for every fuel, state, history and enumeration oracle.
 
+  Section 1c states WHICH fragments a class inherits from, exactly, for every selection set and type: the relation
+  `Inherits` (Proofs/C08Inherits.lean: a kept direct spread; through a fragment that is unpacked and applies to the type;
+  through an inline fragment that `_get_inline_fragment_root_type` accepts — the type itself, or an interface the OBJECT
+  type implements, and then the selections are evaluated for the INTERFACE) is what `_resolve_selection_set` returns
+  (`resolve_fragments_exact`, sound and complete, each name once), and the bases of every class are exactly those
+  fragments' classes in strictly increasing order of the fragment names, or `BaseModel`, followed by exactly the
+  `@mixin` bases (`class_bases_exact`).  `mixin_criterion_inline` / `interface_fragment_inside_inline_is_a_base` are the
+  mixin criterion for spreads written inside inline fragments; `inline_fragment_root_type_cases` is
+  `_get_inline_fragment_root_type` case by case.
+
   Not covered here (evidence: oracle-only): "that class alone validates the same payload" needs the pydantic
   reference semantics of C01 (`fragment_class_validates`, should-tier); it is judged on the real packages.
 -/
 import AriadneModel.Proofs.C08Package
 import AriadneModel.Proofs.C08NoKeyError
 import AriadneModel.Proofs.C08Acyclic
+import AriadneModel.Proofs.C08Inherits
+import AriadneModel.Proofs.OpText
 
 set_option linter.unusedVariables false
 
@@ -205,6 +217,112 @@ theorem carrier_never_inherited (env : Env) (fuel : Nat) (d : Definition) (marks
   subst hf
   rw [carrier_always_unpacked env g none hc] at hu
   cases hu
+
+/-! ## 1c. Which fragments a class inherits from, EXACTLY — inline fragments and unpacked fragments included
+
+  "the type that selection set is evaluated for": `_resolve_selection_set(selection_set, root_type)` carries the type
+  along.  A directly spread fragment that `_unpack_fragment` keeps is inherited; one that is unpacked and applies to the
+  type has its selections evaluated for the SAME type in its place; an inline fragment has its selections evaluated for
+  what `_get_inline_fragment_root_type` answers — the type itself for `... on <the type>`, the INTERFACE for
+  `... on <an interface the object type implements>` (so `account { ... on Node { ...NodeId } }` makes `NodeId`, defined on
+  `Node`, a base of the class generated for `account`), nothing otherwise (the inline fragment is ignored).
+  `Inherits env n sel T` (Proofs/C08Inherits.lean) is that description as an inductive relation, without fuel, state or
+  accumulators; the theorems below say the code computes exactly it, and that the fragment bases of every class are
+  exactly those names, without repetition, in increasing order of the fragment names, before the `@mixin` bases.
+  (A change to any of the three routes, to the order, or to what is appended contradicts a theorem of this section.) -/
+
+/-- (must) **`_resolve_selection_set` returns exactly the inherited fragments, each once** — every fuel, every state -/
+theorem resolve_fragments_exact (env : Env) (fuel : Nat) (sel : List Selection) (T : String) (st : St) (r : Acc) (st' : St)
+    (h : resolve env fuel sel T st = .ok (r, st')) :
+    (∀ n, n ∈ r.2 ↔ Inherits env n sel T) ∧ r.2.Nodup :=
+  ⟨resolve_inherits_iff env fuel sel T st r st' h, resolve_nodup env fuel sel T st r st' h⟩
+
+/-- (must) **the bases of every generated class, exactly**: `BaseModel` when nothing is inherited, otherwise the classes of
+    exactly the inherited fragments (`Inherits`), each once, in strictly increasing order of the fragment names — followed
+    by exactly the extra (`@mixin`) bases the call was given, in the order given. -/
+theorem class_bases_exact (env : Env) (fuel : Nat) (cn T : String) (sid : Nat) (sel : List Selection) (a : Bool)
+    (eb tv : List String) (st : St) (cs : List ClassDecl) (st' : St)
+    (hfresh : st.publicNames.contains cn = false)
+    (h : parseTypeDefinition env fuel cn T sid sel a eb tv st = .ok (cs, st')) :
+    ∃ (c : ClassDecl) (rest : List ClassDecl) (frs : List String), cs = c :: rest ∧ c.name = cn ∧
+      c.bases = (if frs.isEmpty then ["BaseModel"] else frs.map pascal) ++ eb ∧
+      frs.Pairwise (· < ·) ∧ ∀ n, n ∈ frs ↔ Inherits env n sel T := by
+  obtain ⟨x, st1, resolved, acc, fuel', _, hres, _, hcs, _⟩ := parseTypeDefinition_unfold _ _ _ _ _ _ _ _ _ _ _ _ h hfresh
+  have hx := resolve_fragments_exact env fuel sel T _ x st1 hres
+  refine ⟨_, _, sortStr x.2, hcs, rfl, ?_, Ariadne.OpTextProofs.pairwise_sortStr x.2 hx.2, ?_⟩
+  · show classBases x.2 eb = _
+    unfold classBases
+    have he : (sortStr x.2).isEmpty = x.2.isEmpty := by
+      cases hx2 : x.2 with
+      | nil => rfl
+      | cons y ys =>
+        have : y ∈ sortStr (y :: ys) := (mem_sortStr y _).mpr List.mem_cons_self
+        cases hs : sortStr (y :: ys) with
+        | nil => rw [hs] at this; cases this
+        | cons _ _ => rfl
+    rw [he]
+  · intro n
+    rw [mem_sortStr]
+    exact hx.1 n
+
+/-- (must) **a spread inside an inline fragment**: the selection set of `... on C { ...F }`, met while a class is generated
+    for type `T`, is evaluated for the type `_get_inline_fragment_root_type(C, T)` accepts; when `F` qualifies for that type
+    the class generated for `T` has `pascal F` among its bases, hence is a subclass of it. -/
+theorem mixin_criterion_inline (env : Env) (fuel : Nat) (cn T : String) (sid : Nat) (sel : List Selection) (a : Bool)
+    (eb tv : List String) (st : St) (cs : List ClassDecl) (st' : St)
+    (cond rt : String) (idirs : List Directive) (isid : Nat) (sub : List Selection)
+    (hin : Selection.inline (some cond) idirs isid sub ∈ sel) (hrt : inlineFragmentRootType env cond T = some rt)
+    (f : Fragment) (dirs : List Directive) (q : Qualifies env f rt) (hmem : Selection.spread f.name dirs ∈ sub)
+    (hfresh : st.publicNames.contains cn = false)
+    (h : parseTypeDefinition env fuel cn T sid sel a eb tv st = .ok (cs, st')) :
+    ∃ c rest, cs = c :: rest ∧ c.name = cn ∧ pascal f.name ∈ c.bases ∧
+      ∀ t : ClassTable, basesOf t cn = some c.bases → IsSubclass t cn (pascal f.name) := by
+  obtain ⟨x, st1, resolved, acc, fuel', _, hres, _, hcs, _⟩ := parseTypeDefinition_unfold _ _ _ _ _ _ _ _ _ _ _ _ h hfresh
+  have hi : Inherits env f.name sel T := Inherits.throughInline hin hrt (Inherits.direct hmem q.defined q.not_unpacked)
+  have hm : f.name ∈ x.2 := (resolve_inherits_iff env fuel sel T _ x st1 hres f.name).mpr hi
+  exact ⟨_, _, hcs, rfl, pascal_mem_classBases hm, fun t ht => IsSubclass.of_base ht (pascal_mem_classBases hm)⟩
+
+/-- (must) in particular **an inline fragment on an interface the object type implements is evaluated for the interface**:
+    a fragment defined on exactly that interface (no inline fragments of its own) and spread inside it is a base of the class
+    generated for the object type … -/
+theorem interface_fragment_inside_inline_is_a_base (env : Env) (fuel : Nat) (cn T I : String) (t : TypeDef) (sid : Nat)
+    (sel : List Selection) (a : Bool) (eb tv : List String) (st : St) (cs : List ClassDecl) (st' : St)
+    (ht : env.schema.get? T = some t) (hobj : t.kind = .object) (himpl : I ∈ t.interfaces)
+    (idirs : List Directive) (isid : Nat) (sub : List Selection) (hin : Selection.inline (some I) idirs isid sub ∈ sel)
+    (f : Fragment) (dirs : List Directive) (q : Qualifies env f I) (hmem : Selection.spread f.name dirs ∈ sub)
+    (hfresh : st.publicNames.contains cn = false)
+    (h : parseTypeDefinition env fuel cn T sid sel a eb tv st = .ok (cs, st')) :
+    ∃ c rest, cs = c :: rest ∧ c.name = cn ∧ pascal f.name ∈ c.bases ∧
+      ∀ tb : ClassTable, basesOf tb cn = some c.bases → IsSubclass tb cn (pascal f.name) :=
+  mixin_criterion_inline env fuel cn T sid sel a eb tv st cs st' I I idirs isid sub hin
+    (inlineRoot_interface env I T t ht hobj himpl) f dirs q hmem hfresh h
+
+/-- (must) **`_get_inline_fragment_root_type`, case by case, for every schema**: `... on <the type itself>` is evaluated for the
+    type; `... on <an interface the OBJECT type implements>` for the interface; every other inline fragment is ignored; and an
+    accepted inline fragment is never evaluated for anything but its own type condition. -/
+theorem inline_fragment_root_type_cases (env : Env) (cond T : String) :
+    (∀ t, env.schema.get? T = some t → cond = T → inlineFragmentRootType env cond T = some T) ∧
+    (∀ t, env.schema.get? T = some t → t.kind = .object → cond ∈ t.interfaces → inlineFragmentRootType env cond T = some cond) ∧
+    ((∀ t, env.schema.get? T = some t → ¬ (t.kind = .object ∧ cond ∈ t.interfaces) ∧ cond ≠ T) →
+      inlineFragmentRootType env cond T = none) ∧
+    (∀ rt, inlineFragmentRootType env cond T = some rt → rt = cond) :=
+  ⟨fun t ht he => he ▸ inlineRoot_own env cond t (he ▸ ht), fun t ht ho hi => inlineRoot_interface env cond T t ht ho hi,
+   inlineRoot_none env cond T, fun rt h => inlineRoot_eq_cond env cond T rt h⟩
+
+/-- (must) **inheriting is not unpacking**: the iteration of `_resolve_selection_set` that meets a spread of a fragment it keeps
+    as a base leaves the whole generator state alone — in particular it does not record the fragment in `_unpacked_fragments`,
+    which is what would remove its class from the fragments module. -/
+theorem inherit_routes_do_not_unpack (env : Env) (fuel : Nat) (root : String) (n : String) (dirs : List Directive) (f : Fragment)
+    (hf : findFragment? env.frags n = some f) (hun : unpackFragment env f (some root) = false)
+    (b : Acc) (s : St) (r : ForInStep Acc) (s' : St)
+    (h : resolveBody env fuel root (.spread n dirs) b s = .ok (r, s')) : s' = s := by
+  simp only [resolveBody, hf] at h
+  split at h
+  · exact ((ok_err _ _ _).mp h).elim
+  split at h
+  · exact ((ok_err _ _ _).mp h).elim
+  simp only [hun, Bool.not_false, if_true] at h
+  exact ((ok_pure _ _ _ _).mp h).2.symm
 
 /-! ## 2. Fragment classes are defined before their dependants -/
 
@@ -723,5 +841,39 @@ example : (match fragmentsModule id rEnv 10 [rGetUser, rGetNode] with
 
 example : trigUnpackedAndInherited id rEnv 10 [rGetUser, rGetNode] = false ∧ trigMroConflict id rEnv 10 [rGetUser, rGetNode] = false
     ∧ trigSiblingUnpacks id rEnv 10 [rGetUser, rGetNode] = false := by decide
+
+/-! ### a fragment on an interface spread inside `... on <that interface>` at an object position -/
+
+def tAccount : TypeDef := { name := "Account", kind := .object, interfaces := ["Node"], fields := [FieldDef.mk "id" (.named "ID") [], FieldDef.mk "name" (.named "String") []] }
+def tQueryAcc : TypeDef := { name := "Query", kind := .object, fields := [FieldDef.mk "account" (.named "Account") [], FieldDef.mk "node" (.named "Node") []] }
+/-- `fragment NodeId on Node { id }` -/
+def iNodeId : Fragment := { name := "NodeId", on := "Node", sid := 5, sel := [.field none "id" [] 0 []] }
+def iEnv : Env := { schema := { types := [tNode, tAccount, tQueryAcc], query := some "Query" }, frags := [iNodeId] }
+/-- `query GetAccount { account { name ... on Node { ...NodeId } } }` -/
+def iGetAccount : Operation := { kind := .query, name := some "GetAccount", sid := 1, sel := [.field none "account" [] 2 [.field none "name" [] 0 [], .inline (some "Node") [] 3 [.spread "NodeId" []]]] }
+/-- `query GetNode { node { ...NodeId } }` -/
+def iGetNode : Operation := { kind := .query, name := some "GetNode", sid := 4, sel := [.field none "node" [] 6 [.spread "NodeId" []]] }
+
+example : Qualifies iEnv iNodeId "Node" := ⟨by rfl, rfl, by decide, by decide⟩
+example : inlineFragmentRootType iEnv "Node" "Account" = some "Node" := by decide
+example : inlineFragmentRootType iEnv "Account" "Node" = none := by decide
+example : Inherits iEnv "NodeId" [.field none "name" [] 0 [], .inline (some "Node") [] 3 [.spread "NodeId" []]] "Account" :=
+  Inherits.throughInline (cond := "Node") (rt := "Node") (dirs := []) (sid := 3) (sub := [.spread "NodeId" []])
+    (List.mem_cons_of_mem _ List.mem_cons_self) (by decide)
+    (Inherits.direct (dirs := []) (f := iNodeId) List.mem_cons_self (by rfl) (by decide))
+
+/-- on the witness: `GetAccountAccount(NodeId)` and `GetNodeNode(NodeId)`, nothing is unpacked, `NodeId` has its class in
+    the fragments module, and the package lies outside every finding trigger -/
+example : (match fragmentsModule id iEnv 10 [iGetAccount, iGetNode] with
+    | .ok out => (match out.fragments with
+          | some fo => (fo.classes.map (·.name)).contains "NodeId"
+          | none => false)
+        && out.excluded.isEmpty
+        && out.ops.any (fun g => g.out.classes.any fun c => c.name == "GetAccountAccount" && c.bases == ["NodeId"])
+        && out.ops.any (fun g => g.out.classes.any fun c => c.name == "GetNodeNode" && c.bases == ["NodeId"])
+    | .error _ => false) = true := by decide
+
+example : trigUnpackedAndInherited id iEnv 10 [iGetAccount, iGetNode] = false ∧ trigMroConflict id iEnv 10 [iGetAccount, iGetNode] = false
+    ∧ trigSiblingUnpacks id iEnv 10 [iGetAccount, iGetNode] = false := by decide
 
 end Ariadne.C08
